@@ -116,9 +116,9 @@ def _encode_enum(buffer: _Buffer, fcp: FcpV2, type: EnumType, data: Any) -> None
 
 
 def _encode_str(buffer: _Buffer, fcp: FcpV2, type: StringType, data: Any) -> None:
-    _encode_builtin_unsigned(buffer, UnsignedType("u32"), len(data))
-    for x in data:
-        _encode(buffer, fcp, UnsignedType("u8"), ord(x))
+    payload = data.encode("utf-8")
+    _encode_builtin_unsigned(buffer, UnsignedType("u32"), len(payload))
+    buffer.push_bytes(list(payload))
 
 
 def _encode_struct(
@@ -220,7 +220,7 @@ def _decode_enum(buffer: _Buffer, fcp: FcpV2, type: EnumType) -> int:
 
 def _decode_str(buffer: _Buffer, type: StringType) -> str:
     len = _decode_builtin_unsigned(buffer, UnsignedType("u32"))
-    return bytearray(buffer.read_bytes(len)).decode("ascii")
+    return bytearray(buffer.read_bytes(len)).decode("utf-8")
 
 
 def _decode_array(buffer: _Buffer, fcp: FcpV2, type: ArrayType) -> List[Any]:
